@@ -55,6 +55,11 @@ impl Proposal {
     /// Returns true if this proposal is sure to pass (even before expiration, if no future
     /// sequence of possible votes could cause it to fail).
     pub fn is_passed(&self, block: &BlockInfo) -> bool {
+        // A proposal needs some support to pass. Without this, a tally where every vote
+        // abstains (e.g. after a zero-weight member proposed) would satisfy "0 of 0".
+        if self.votes.yes == 0 {
+            return false;
+        }
         match self.threshold {
             Threshold::AbsoluteCount {
                 weight: weight_needed,
